@@ -610,7 +610,11 @@ def session_checks(ctx, tier, rng):
             r -= 1
         target = rng.choice(["a", "g"])
         gz = rng.random() < 0.3
-        case = {"kind": "proxy-session", "info": info, "target": target, "axes": axes, "gzip": gz, "query": ""}
+        # what the process did before (the last two proxy sessions): a replay repeats it first, so that state kept across
+        # datasets in one process (a memo keyed by function name, ...) is there again
+        case = {"kind": "proxy-session", "info": info, "target": target, "axes": axes, "gzip": gz, "query": "",
+                "before": list(session_checks.history[-2:])}
+        session_checks.history.append({"info": info, "target": target, "axes": axes, "gzip": gz})
         try:
             c = open_url("http://localhost/d", session=X.wsgi_session(app, gz=gz))
             res_ = c[target]
@@ -630,6 +634,9 @@ def session_checks(ctx, tier, rng):
             ctx.oracle_fail("function proxy over a requests session raised %s" % type(e).__name__, case, repr(e)[:200],
                             "the values of the raw request", size=sum(info["shape"]))
         ctx.count(("psess", repr(info), repr(axes), target, gz), True, tag="proxy-session|%s|depth%d%s" % (target, len(axes), "|gzip" if gz else ""))
+
+
+session_checks.history = []
 
 
 def explore(ctx, tier, search=False):
@@ -725,6 +732,16 @@ def replay(payload):
         from pydap.client import open_url
         from pydap.model import BaseType, DatasetType, GridType
         import xdrlib as X
+        for b in c.get("before", []):
+            try:        # the process's earlier proxy sessions, for the state they leave behind
+                app0 = SSF(BaseHandler(mean_ds_from_info(b["info"])))
+                cl0 = open_url("http://localhost/d", session=X.wsgi_session(app0, gz=b.get("gzip", False)))
+                r0 = cl0[b["target"]]
+                for k in b["axes"]:
+                    r0 = cl0.functions.mean(r0, k)
+                np.asarray((r0["a"] if b["target"] == "a" else r0["g"]["v"]).data)
+            except Exception:
+                pass
         ds = mean_ds_from_info(c["info"])
         app = SSF(BaseHandler(ds))
         try:
